@@ -11,3 +11,16 @@ package parser
 //@   loop 1 invariant forall(k, 0, $idx+1, safeCmds[k] != f)
 //@   ensures imp(result, forall(k, 0, len(safeCmds), safeCmds[k] != f))
 //@   ensures imp(!result, exists(k, 0, len(safeCmds), safeCmds[k] == f))
+
+// The unsafe verdict sticks: no iteration of the tokenizer's main loop clears it.
+//@ func Parse [C34]
+//@   check none
+//@   scope functional
+//@   at call Parse$1#* modifies syntaxHighlighted, reset
+//@   at call Parse$2#* modifies syntaxHighlighted, reset
+//@   at call Parse$3#* modifies syntaxHighlighted, reset
+//@   at call Parse$4#* modifies syntaxHighlighted
+//@   at call Parse$5#* modifies syntaxHighlighted, reset
+//@   at call Parse$6#* modifies pt.ExpectParam, pt.Parameters, pt.pop
+//@   at call Parse$7#* modifies pt.Escaped, pt.FuncName, pt.Parameters, elems(pt.Parameters), syntaxHighlighted, reset
+//@   loop 1 step imp(old(pt.Unsafe), pt.Unsafe)
